@@ -841,6 +841,25 @@ func (g *gen) buildPool() pool {
 		{Name: "AaaAlias2", IRI: sal2.TypeIRI, Shape: "none"}}
 	_ = e.Register(sal2)
 	add(credgen.Spec{Schema: sal2})
+	// two terms, one IRI, and only one of them carries the attribute - all four combinations of
+	// {alias sorts first, alias sorts last} x {attribute on the first, on the last}: the first term in
+	// sorted order decides (no attribute there = an ordinary merklized schema, whatever the other says)
+	for _, c := range []struct {
+		alias       string
+		attrOnAlias bool
+	}{{"AaaAlias", true}, {"AaaAlias", false}, {"ZzzAlias", true}, {"ZzzAlias", false}} {
+		var sc *credgen.Schema
+		if c.attrOnAlias {
+			sc = e.NewSchema(nil)
+			sc.Extra = []credgen.ExtraType{{Name: c.alias, IRI: sc.TypeIRI, Shape: "map", SerAttr: credgen.SerAttr("count", "", "", "name")}}
+		} else {
+			sc = e.NewSchema(str(credgen.SerAttr("count", "", "", "name")))
+			sc.Extra = []credgen.ExtraType{{Name: c.alias, IRI: sc.TypeIRI, Shape: "map"}}
+		}
+		_ = e.Register(sc)
+		add(credgen.Spec{Schema: sc, Subject: did})
+		add(credgen.Spec{Schema: sc})
+	}
 	// a context that does not load
 	gone := &credgen.Schema{URL: "https://schemas.example/gen/missing.json-ld", TypeName: "Gone", TypeIRI: "urn:gone", CtxShape: "map"}
 	gone.BuildDoc()
